@@ -10,7 +10,7 @@
      attach ep (column / frame indexed like the kept rows)
 
    Numbers are exact rationals (every float64 is one).  No proofs in this file. *)
-From Coq Require Import QArith List Bool Arith.
+From Coq Require Import QArith Qabs List Bool Arith.
 Import ListNotations.
 Open Scope Q_scope.
 
@@ -38,7 +38,15 @@ Fixpoint psum (sep p : list Q) : Q :=
   | _, _ => 0
   end.
 
-Definition close (sep p q : list Q) : bool := Qltb (d2r sep p q) 1.
+(* the pair test.  Like the k-d tree, a pair that already differs by >= 1 along
+   the first rescaled axis is rejected without summing (Proofs: this is the
+   same predicate as d2r < 1) *)
+Definition close (sep p q : list Q) : bool :=
+  match sep, p, q with
+  | s :: _, a :: _, b :: _ =>
+      if Qle_bool 1 (Qabs (a / s - b / s)) then false else Qltb (d2r sep p q) 1
+  | _, _, _ => Qltb (d2r sep p q) 1
+  end.
 
 (* a point handed to where_close: (row label, (position, intensity)) *)
 Definition item := (nat * (list Q * Q))%type.
